@@ -71,6 +71,18 @@ CHECKS = {
         note="Requests/ticks/frames only; direct Python-API calls of power_on/power_off/reset are outside the property's quantifier (optional VERIF_C12_API=1).",
         design_ref="DESIGN.md §4 C12",
     ),
+    "C13": dict(
+        technique="explicit-state BFS per shipped service/application class (21 classes, enumerated from the registries at run time) on a real host + peer; lock-step lifecycle reference models; receive/send monitors; registry agreement invariants",
+        text="One harness per class in Service._registry and Application._registry (plus listener, running-at-start and shared-port pair "
+             "variants): BFS over start/stop/pause/resume/restart/disable/enable/fix/scan (services), execute/close/fix/scan/install/"
+             "uninstall (applications), ticks, node shutdown/startup and a real frame from the peer addressed to the software's port with "
+             "a payload it understands. A reference state machine written from action_masking.rst/software.rst is stepped in lock-step "
+             "(acceptance exactly in documented source states, restart on tick duration+1, install on tick duration, power effects); "
+             "not running => no open port, receive() neither handles nor changes the instance nor emits a frame; after every event "
+             "software_manager.software, node.services/applications, request routes, describe_state keys and port_protocol_mapping agree.",
+        note="Restart/installation timing conventions per DESIGN.md §2; execute/fix statuses are not judged.",
+        design_ref="DESIGN.md §4 C13",
+    ),
     "C15": dict(
         technique="explicit-state BFS over real FileSystem objects (replay-from-history), invariants on every state",
         text="Every sequence of file-system requests / agent-action requests / API calls up to the stated depth over a "
@@ -80,6 +92,18 @@ CHECKS = {
              "evaluated after every transition.",
         note="Bounded: names {f1,f2}x{a.txt,b.txt}, depth per harness in the evidence file; CPython/pydantic trusted.",
         design_ref="DESIGN.md §4 C15",
+    ),
+    "C04": dict(
+        technique="exhaustive enumeration of dirty histories with differential comparison against a fresh environment; enumeration of ALL order-preserving interleavings of two environment instances' programs; object-graph disjointness",
+        text="Episode isolation: for every dirty history (all sequences up to length 2, thorough 3 with ticks/resets in between) over a "
+             "24-action dirtying alphabet touching every subsystem, [new env; history; reset(seed); probe] must equal [new env; reset(seed); "
+             "probe] step for step in nested observation, reward, truncation and every agent's action/parameters/response, and no "
+             "simulation component, agent or manager reachable from the new game may be reachable from the old one. Instance isolation: "
+             "programs A=[new,reset,step*n] and B=[new,reset,step*m,close] under ALL order-preserving interleavings for pairs of equal, "
+             "differently configured (NMNE off, other topology/flags) and stochastic scenarios; A must behave as when run alone. Episode "
+             "schedules: a scheduled episode after dirty earlier episodes equals the same episode after clean ones.",
+        note="'Newly constructed' = fresh environment object brought to the episode by reset(seed). Two design-level defects are recorded as known findings (class-level NMNE configuration, process-wide RNGs).",
+        design_ref="DESIGN.md §4 C04",
     ),
     "C05": dict(
         technique="explicit-state BFS over a real 7-node Simulation; at every state exhaustive enumeration of live request paths x single-element mutations, executed against the real request tree with full-state comparison; action requests in forked snapshots",
